@@ -339,8 +339,17 @@ RelViolations(cfg, orc, argv, disp, fin) ==
   IF fin.miss THEN {}
   ELSE LET p == RelationalPreds(cfg, orc, argv, disp, fin) IN {k \in DOMAIN p : ~p[k]}
 
+(* C20: the reported missing option is determined by a fixed rule, and the *)
+(* ordering oracle supplied with the definition is a permutation of the    *)
+(* level's names.                                                          *)
+FixedRule(cfg, argv, st) ==
+  /\ \A n \in 1..NNodes(cfg) : SortedOK(cfg, n)
+  /\ st.err.kind = "required" => Cardinality(st.err.names) = 1 /\ st.err.names \subseteq Missing(cfg, st, 1)
+  /\ st.derr = "required" => Cardinality(st.dnames) = 1 /\ st.dnames \subseteq Missing(cfg, st, st.node)
+
 FinalPreds(cfg, orc, argv, st) ==
-  [ Conservation |-> Conservation(cfg, argv, st),
+  [ FixedRule |-> FixedRule(cfg, argv, st),
+    Conservation |-> Conservation(cfg, argv, st),
     UnknownNeverDropped |-> UnknownNeverDropped(cfg, argv, st),
     ErrImpliesNilRest |-> ErrImpliesNilRest(cfg, argv, st),
     TerminatorRoles |-> TerminatorRoles(cfg, argv, st),
